@@ -492,9 +492,12 @@ class StmtExec(Exec):
         est = State(dict(st.env), st.pc)
         if st.out is not None:
             est.env["_out"] = st.out
+        done = []
         for i, inv in enumerate(spec.get("inv", [])):
             g = truthy(sub.ev_str(inv, est))
-            self.ctx.oblige(kind, st, g, line, "loop %d invariant[%d]: %s" % (k, i, inv))
+            # clause i may rely on clauses 0..i-1 at the same program point (each is an obligation of its own)
+            self.ctx.oblige(kind, st, g, line, "loop %d invariant[%d]: %s" % (k, i, inv), extra=done)
+            done.append(g)
 
     def assume_inv(self, spec, st):
         sub = SpecEval(self.ctx, self.ctx.contract.ns)
@@ -566,9 +569,12 @@ class StmtExec(Exec):
             h.env[g_rest] = h.env["_rest"] = rest_sym
             if spec.get("suffix", True) and isinstance(rest_sym.ty, (ListT, DictT)) is False and (rest_sym.ty is STR or isinstance(rest_sym.ty, SeqT)):
                 # the remaining part is a suffix of the iterated sequence at offset _i (native Seq reasoning)
+                # (stated with a ghost prefix instead of seq.extract: z3 mis-handles `rest == extract(full, i, len - i)`
+                # together with `len(rest) <= 0`, DESIGN appendix B)
                 full = h.env[g_it].t
-                h.assume(z3.And(i_sym.t <= z3.Length(full),
-                                rest_sym.t == z3.SubSeq(full, i_sym.t, z3.Length(full) - i_sym.t)))
+                done_sym = fresh(rest_sym.ty, "_done%d" % k)
+                h.env["_done%d" % k] = h.env["_done"] = done_sym
+                h.assume(z3.And(full == z3.Concat(done_sym.t, rest_sym.t), z3.Length(done_sym.t) == i_sym.t))
         self.assume_inv(spec, h)
         outs = []
         # exit
